@@ -561,7 +561,7 @@ func main() {
 	}
 	w.Stats.Extra["partition_streams"] = partitionStreams
 	w.Stats.Extra["partitions_answering_differently"] = mixedPartitions
-	if err := w.Finish("histories from the five request classes (increasing, repeated, decreasing, zero, above-current) and mixtures, interleaved with write bursts, an optional unknown-outcome write (retry-queue cap) and List/limited List/Count/scanner Count/ListByStream at revisions around the floor, followed by a sweep over every revision from init-1 to current+1 through every read path (List unlimited and with limits 1, 2, 500, scanner Count, ListByStream whole and per advertised partition); reads also through etcd.RPCServer.Range (prefix, interval, [key, key+0x00) with limits 0/1/3); on a TiKV mock with an RPC interceptor every read below the floor is made while the point read of the compaction record fails with a key error; zigzag class = at least three compactions high/low/in-between, some through a second Backend on the same store, with 1-3 compaction ranges; distinct = SHA-256 of the Coq case; overlap cases: 2-3 Backend.Compact calls on logical threads advanced one engine call at a time (the calls touching the compaction record are the yield points), fixed schedules (older request parked before its commit while the newer completes, the symmetric order, both read first, on top of an earlier floor, the witness of finding C08-F1, and - on memkv - the older request parked INSIDE its batch right before the engine Commit while the newer one is advanced: blocked until that commit) and random interleavings with reads in between, on memkv and Badger; non-trivial = at least one refused and one served read (and, for overlap cases, a step taken while another thread was alive)"); err != nil {
+	if err := w.Finish("histories from the five request classes (increasing, repeated, decreasing, zero, above-current) and mixtures, interleaved with write bursts, an optional unknown-outcome write (retry-queue cap) and List/limited List/Count/scanner Count/ListByStream at revisions around the floor, followed by a sweep over every revision from init-1 to current+1 through every read path (List unlimited and with limits 1, 2, 500, scanner Count, ListByStream whole and per advertised partition); reads also through etcd.RPCServer.Range (prefix, interval, [key, key+0x00) with limits 0/1/3); on a TiKV mock with an RPC interceptor every read below the floor is made while the point read of the compaction record fails with a key error; zigzag class = at least three compactions high/low/in-between, some through a second Backend on the same store, with 1-3 compaction ranges; distinct = SHA-256 of the Coq case; overlap cases: 2-3 Backend.Compact calls on logical threads advanced one engine call at a time (the calls touching the compaction record are the yield points), fixed schedules (older request parked before its commit while the newer completes, the symmetric order, both read first, on top of an earlier floor, the witness of finding C08-F1, and - on memkv - the older request parked INSIDE its batch right before the engine Commit while the newer one is advanced: blocked until that commit) and random interleavings with reads in between, on memkv and Badger; read-race schedules on memkv, Badger and the TiKV mock: a range read (unlimited / limited List) on its own thread, parked after its read of the compaction record and before its iterators are opened, while keys are rewritten and a compaction above its revision runs (former finding C08-F2: the scan ends with a second read of the record), also in the random interleavings; non-trivial = at least one refused and one served read (and, for overlap cases, a step taken while another thread was alive)"); err != nil {
 		fmt.Fprintln(os.Stderr, err)
 		os.Exit(2)
 	}
